@@ -206,3 +206,11 @@ Definition max_spec (c : mcase) : bool :=
                        complete && ((mc_ann_a c =? 0) || (longest <=? mc_ann_a c))) (mc_sent_r c)
   && forallb (fun s => let '(_, longest, complete) := s in
                        complete && ((mc_ann_r c =? 0) || (longest <=? mc_ann_r c))) (mc_sent_a c).
+
+(* ---- C10: what a side announced it is prepared to receive, it does receive ---------------------------
+   (own configured maximum = announced, the peer's smaller announcement, variable-field length of an incoming
+   P-DATA-TF, whether the message in it reached the local user) *)
+Definition rvcase := (N * N * N * bool)%type.
+Definition recv_spec (c : rvcase) : bool :=
+  let '(own, peer_ann, pdu_len, delivered) := c in
+  negb ((own =? 0) || (pdu_len <=? own)) || delivered.
